@@ -154,11 +154,16 @@ func execDemux(e *Env, pp any) {
 		}
 	})
 	fed := 0
+	var feedStart []int // event number at which the feeder began writing envelope i
 	fedN := func() int { histMu.Lock(); defer histMu.Unlock(); return fed }
 	e.Go("raw.feeder", func() {
 		for i, k := range p.Seq {
 			e.Pt("feed")
 			pl := fmt.Sprintf("in-%d-k%d", i, k%max(p.Keys, 1))
+			ev := e.Log("feed.start", "", i, "")
+			histMu.Lock()
+			feedStart = append(feedStart, ev)
+			histMu.Unlock()
 			if a.Write(rctx, &Rpc{Id: uint64(i + 1), Header: &goatorepo.RequestHeader{Method: "/raw/M", Source: keyName(k % max(p.Keys, 1)), Destination: "srv"},
 				Body: &goatorepo.Body{Data: []byte(pl)}}) != nil {
 				return
@@ -317,6 +322,50 @@ func execDemux(e *Env, pp any) {
 			// the key legitimately creates a fresh one, which may be waiting)
 			if !cr.finished && cancelEv != 0 && cr.annEv < cancelEv && len(cr.read) > 0 && readBefore(e, cr.idx, cancelEv) {
 				e.Violate(prop, "blocked-after-cancel", "demux.go:Cancel", "the consumer of logical connection %d (cancelled key %s) is still blocked in a read or write after settle\n%s", cr.idx, cancelKey, e.WaitGraph())
+			}
+		}
+	}
+	// a key used again after its Cancel returned is a first use again: the
+	// envelopes fed after that point reach a freshly announced connection.
+	// Decidable when nothing was stopped and every consumer keeps reading (so
+	// Run is never parked behind a connection nobody drains).
+	if cancelDone && cancelEv != 0 && !stopped {
+		allReaders := true
+		for _, c2 := range cs {
+			if c2.idx < len(p.Reads) && p.Reads[c2.idx] >= 0 {
+				allReaders = false
+			}
+		}
+		var late []string
+		for i, k := range p.Seq {
+			if i >= fed || i >= len(feedStart) {
+				break
+			}
+			if keyName(k%p.Keys) == cancelKey && feedStart[i] > cancelEv {
+				late = append(late, fmt.Sprintf("in-%d-k%d", i, k%p.Keys))
+			}
+		}
+		if allReaders && len(late) > 0 {
+			e.Note("cancel.key-reused")
+			fresh := 0
+			got := map[string]bool{}
+			for _, cr := range perKey[cancelKey] {
+				if cr.annEv > cancelEv {
+					fresh++
+				}
+				for _, m := range cr.read {
+					got[m] = true
+				}
+			}
+			if fresh == 0 {
+				e.Violate(prop, "not-reannounced-after-cancel", "demux.go:Run", "%d envelope(s) of key %s were fed after Cancel(%s) had returned, but no new logical connection was announced for the key (first: %s)\n%s", len(late), cancelKey, cancelKey, late[0], e.WaitGraph())
+			} else {
+				for _, m := range late {
+					if !got[m] {
+						e.Violate(prop, "lost-after-cancel", "demux.go:Run", "envelope %s of key %s, fed after Cancel had returned, was never handed to a logical connection although every consumer keeps reading", m, cancelKey)
+						break
+					}
+				}
 			}
 		}
 	}
